@@ -215,6 +215,21 @@ class Session(object):
             w.step(4)
         if flt:
             w.net.filters.remove(f)
+        if attack.get("linger"):
+            # the application keeps calling update() for many seconds after the failed attempt; then one more hello-typed datagram
+            # arrives (fresh packet number, a message number the client has seen): still no key, still not connected
+            w.step(int(6.5 / w.dt))
+            conn_l = cl.udp.conn
+            if conn_l is not None:
+                for k in range(3):
+                    seq_l = (int(conn_l.bitfield_pkt.current_seqnum) + 1 + k) % 65535 + 1
+                    mseq_l = int(conn_l.bitfield_msg.current_seqnum) or 1
+                    w.net.inject("s2c", addr, A.forge_crc("s2c", 2, seq_l, 1, 0, [(mseq_l, 2, bytes(40))], int(w.clock.now)), "forged:late-hello")
+                w.step(6)
+                self.c.inc("lingering_clients_after_rejected_hello")
+                if cl.udp.connected() or getattr(conn_l.status, "value", 0) == 2:
+                    self.viol("key-status-mismatch", "a client whose hello was rejected reports connected() = %s (status %s, key %s) after lingering 6.5 s and three more hello-typed datagrams" % (
+                        cl.udp.connected(), conn_l.status, "set" if conn_l.session_key_bytes else "none"))
         keyed = self.check_client(cl, pinned and pinned_key is None or attack.get("judge_pinned", False))
         sconn = w.ctxt.connections.get(addr)
         if sconn is not None:
@@ -474,6 +489,22 @@ def run_shard(cfg):
                 return None
             return body_of_datagram(build_server_hello(C, base, eph=atk_eph.getPublicKey().getBytes(), signer=atk_root))
         S.handshake({"name": "post-handshake:rewrapped-hello-signed-by-attacker", "honest": True, "then": [rewrap(attacker_body)], "ticks": 10})
+        # --- lingering after a rejected hello (three kinds of rejection)
+        subst("linger:resigned-by-attacker-root", lambda b, cl: build_server_hello(C, b, eph=atk_eph.getPublicKey().getBytes(), signer=atk_root), linger=True)
+        subst("linger:signature-random", lambda b, cl: build_server_hello(C, b, signature=r.randbytes(len(b["signature"]))), linger=True)
+        subst("linger:token+1", lambda b, cl: build_server_hello(C, b, token=b["token"] ^ 1), linger=True)
+        # --- a slow handshake (0.6 s one way) in which the network delivers a second copy of the client hello a good second after
+        #     the first, just before the challenge response: the server keeps the handshake it has, both ends agree
+        temp0 = S.w.ctxt.temp_connection_timeout
+        S.w.ctxt.temp_connection_timeout = 3.0
+        for gap in (1.05, 1.15):
+            def flt_slow(direction, addr_, d, cl, gap=gap):
+                if direction == "c2s" and len(d) >= 20 and d[12] == 1:
+                    return [0.6, 0.6 + gap]          # (a list of delays: one copy per entry)
+                return [0.6]
+            S.handshake({"name": "network-slow-handshake-with-late-duplicate-hello", "filter": flt_slow, "honest": True, "ticks": int(2.6 / S.w.dt), "variant": gap})
+            out["counters"].inc("slow_handshakes_with_late_duplicate_hello")
+        S.w.ctxt.temp_connection_timeout = temp0
         # --- a second session on the same UdpClient
         for i in range(3):
             S.handshake({"name": "second-session-same-client:honest", "honest": True, "second_session_same_client": True, "ticks": 10, "variant": i})
@@ -657,7 +688,7 @@ def finish(tier, seed, results):
     m = merge(results)
     inconclusive = []
     need(m["counters"], ["honest_handshakes", "root_key_signatures", "client_key_derivations", "client_params_in_signed_set",
-                         "signature_verified_independently", "promotions_with_proof", "post_handshake_rewrapped_hellos", "retries_on_same_client_object", "second_sessions_on_same_client_object", "plaintext_challenges_after_unanswered_hello", "hello_bodies_under_other_type_ids", "key_agreements_checked", "client_left_unconnected",
+                         "signature_verified_independently", "promotions_with_proof", "post_handshake_rewrapped_hellos", "retries_on_same_client_object", "second_sessions_on_same_client_object", "plaintext_challenges_after_unanswered_hello", "hello_bodies_under_other_type_ids", "key_agreements_checked", "lingering_clients_after_rejected_hello", "slow_handshakes_with_late_duplicate_hello", "client_left_unconnected",
                          "mutations_type1", "mutations_type2", "mutations_type3", "server_connect_events", "concurrent_pending_pairs"], inconclusive)
     cov = {
         "evaluations": m["evaluations"],
